@@ -71,6 +71,8 @@ def body_rand(case, ctx):
         r.label("explicit_target_values")
     if math.isfinite(md):
         r.label("finite_max_distance")
+    if case.get("gc_global"):
+        r.label("great_circle_wide_grid")
     if isinstance(case["y"], list):
         r.label("clustered_nonuniform_coords")
     else:
@@ -95,7 +97,9 @@ def body_rand(case, ctx):
         is_t = bool(tmask[i, j])
         info = "cell (%d,%d): prox %r alloc %r dir %r, true nearest %r, max_distance %r\nraster=%s xs=%s ys=%s target_values=%s" % (
             i, j, pv, av, dv, near[p], md, a.tolist(), xs.tolist(), ys.tolist(), tv)
-        if (pv == 0) != is_t:
+        # 0 exactly on target cells; a non-target cell may hold 0 only if it coincides with a target under the metric
+        # (lon -180 / 180 or any longitude at a pole are the same point on the sphere)
+        if (is_t and pv != 0) or (pv == 0 and not is_t and near[p] > 1e-6):
             return r.fail("zero_iff_target", info)
         if math.isnan(pv):
             if math.isinf(md) and targets:
@@ -371,6 +375,26 @@ def multi_cases(draw):
             "metric": metric, "target_values": tv, "max_distance": md}
 
 
+@st.composite
+def gc_cases(draw):
+    """GREAT_CIRCLE on wide lon/lat grids (spans beyond 180 degrees of longitude, high latitudes, the antimeridian and the poles as
+    coordinates), few targets, mostly unbounded max_distance: the corner-to-corner distance is NOT the largest distance there."""
+    h, w = draw(st.integers(1, 7)), draw(st.integers(2, 12))
+    span_x = draw(st.sampled_from([360.0, 340.0, 300.0, 200.0, 170.0, 40.0]))
+    span_y = draw(st.sampled_from([180.0, 160.0, 60.0, 10.0]))
+    x0 = -span_x / 2 + draw(st.sampled_from([0.0, 0.0, 5.0])) * (1 if span_x < 350 else 0)
+    y0 = draw(st.sampled_from([-span_y / 2, max(-90.0, 90.0 - span_y)]))
+    x = {"start": x0, "step": span_x / (w - 1), "n": w, "desc": draw(st.booleans())}
+    y = {"start": y0, "step": (span_y / (h - 1)) if h > 1 else 1.0, "n": h, "desc": draw(st.booleans())}
+    nt = draw(st.integers(1, 3))
+    flat = [0.0] * (h * w)
+    for _ in range(nt):
+        flat[draw(st.integers(0, h * w - 1))] = draw(st.sampled_from([1.0, 2.5, 4.0, -3.0]))
+    md = draw(st.sampled_from([None, None, None, 1e12, 2.5e6]))
+    return {"sub": "rand", "raster": {"dtype": "float64", "data": [flat[i * w:(i + 1) * w] for i in range(h)]}, "y": y, "x": x,
+            "metric": "GREAT_CIRCLE", "target_values": [], "max_distance": md, "gc_global": True}
+
+
 def family_blocks(metric, max_cells, block=16384, md=None):
     out = []
     for (h, w) in FAMILY[metric]:
@@ -385,7 +409,7 @@ def family_blocks(metric, max_cells, block=16384, md=None):
 
 def shards(tier):
     out = []
-    nr, per = (6, 14) if tier == "quick" else (12, 450)
+    nr, per = (5, 14) if tier == "quick" else (12, 450)
     for i in range(nr):
         out.append(("rand#%d" % i, lambda ctx: drive_hypothesis(ctx, body_rand, rand_cases(10 if tier == "thorough" else 8), per, shrink=(tier == "thorough"))))
     blocks = []
@@ -396,6 +420,8 @@ def shards(tier):
         blocks += family_blocks("EUCLIDEAN", 18) + family_blocks("MANHATTAN", 18)
         for md in (1.0, 1.5, 2.3, 3.0):
             blocks += family_blocks("EUCLIDEAN", 15, md=md) + family_blocks("MANHATTAN", 15, md=md)
+    for i in range(2 if tier == "quick" else 3):
+        out.append(("gc#%d" % i, lambda ctx: drive_hypothesis(ctx, body_rand, gc_cases(), 12 if tier == "quick" else 300, shrink=(tier == "thorough"))))
     nm, perm = (4, 14) if tier == "quick" else (4, 450)
     for i in range(nm):
         out.append(("multi#%d" % i, lambda ctx: drive_hypothesis(ctx, body_rand, multi_cases(), perm, shrink=(tier == "thorough"))))
